@@ -219,7 +219,8 @@ def handlers : List (String × Handler) := [
       Json.mkObj [("offsets", intsToJson [x.1.1, x.1.2]), ("position", v3Json x.2)]) r)),
   ("call", fun j => do
     let cls ← getStr j "cls"
-    let b ← getBatch j "batch"
+    let seqArg := (match j.getObjVal? "batch" with | .ok .null => true | _ => false)
+    let b ← (if seqArg then pure (default : Batch) else getBatch j "batch")
     let round := (← getOpt j "round" jsonToBool).getD false
     let drop := (← getOpt j "drop" jsonToBool).getD false
     let r : Except ErrKind (List (List Rat)) ← (match cls with
@@ -232,7 +233,20 @@ def handlers : List (String × Handler) := [
       | "i2i" => do pure (imgToImgCall (← getRatList j "pos_f") (← getRatList j "ori_f") (← getSpacing j "ps_f")
           (← getRatList j "pos_t") (← getRatList j "ori_t") (← getSpacing j "ps_t") b)
       | _ => throw "cls: unknown class" : Except String (Except ErrKind (List (List Rat))))
-    pure (exceptToJson rowsJson r)),
+    if !seqArg then pure (exceptToJson rowsJson r)
+    else
+      -- a list / tuple instead of an array: the transformer is built first, then `callAny` on a sequence
+      let ar : Except ErrKind (Aff × CallSpec) ← (match cls with
+        | "p2r" => do pure ((pixToRefAffine (← getRatList j "pos") (← getRatList j "ori") (← getSpacing j "ps")).map (·, Gen.pixToRefCallSpec))
+        | "i2r" => do pure ((imgToRefAffine (← getRatList j "pos") (← getRatList j "ori") (← getSpacing j "ps")).map (·, Gen.imgToRefCallSpec))
+        | "r2p" => do pure ((invAffineFromAttributes (← getRatList j "pos") (← getRatList j "ori") (← getSpacing j "ps") (← getRat j "sbs")).map (·, Gen.refToPixCallSpec))
+        | "r2i" => do pure ((refToImgAffine (← getRatList j "pos") (← getRatList j "ori") (← getSpacing j "ps") (← getRat j "sbs")).map (·, Gen.refToImgCallSpec))
+        | "p2p" => do pure ((pixToPixAffine (← getRatList j "pos_f") (← getRatList j "ori_f") (← getSpacing j "ps_f")
+            (← getRatList j "pos_t") (← getRatList j "ori_t") (← getSpacing j "ps_t")).map (·, Gen.pixToPixCallSpec))
+        | "i2i" => do pure ((imgToImgAffine (← getRatList j "pos_f") (← getRatList j "ori_f") (← getSpacing j "ps_f")
+            (← getRatList j "pos_t") (← getRatList j "ori_t") (← getSpacing j "ps_t")).map (·, Gen.imgToImgCallSpec))
+        | _ => throw "cls: unknown class" : Except String (Except ErrKind (Aff × CallSpec)))
+      pure (exceptToJson rowsJson (ar >>= fun (a, sp) => callAny sp a drop round .sequence))),
   ("mapPixelB", fun j => do
     let r := mapPixelIntoCoordinateSystemB (← getIntList j "index") (← getRatList j "pos") (← getRatList j "ori") (← getSpacing j "ps")
     pure (exceptToJson v3Json r)),
